@@ -28,6 +28,15 @@ impl Args {
         self.kv.get(k).map(|s| s.as_str())
     }
     pub fn u64(&self, k: &str, d: u64) -> u64 {
+        if k == "seed" && self.get(k) == Some("auto") {
+            // Under Miri (isolation on) std's RandomState is seeded from Miri's own seeded
+            // generator, so with -Zmiri-many-seeds every seed gets its own workload seed and
+            // -Zmiri-seed=N replays it exactly.
+            use std::hash::{BuildHasher, Hasher};
+            let mut h = std::collections::hash_map::RandomState::new().build_hasher();
+            h.write_u64(0x6d71_7632);
+            return h.finish() >> 1;
+        }
         self.get(k).and_then(|v| v.parse().ok()).unwrap_or(d)
     }
     pub fn flag(&self, k: &str) -> bool {
@@ -66,12 +75,20 @@ fn write_out(args: &Args, shard: &report::Shard) {
     if let Some(e) = hooks::take_harness_error() {
         j.put("harness_error", out::J::s(e));
     }
+    j.put("seed_used", out::J::UInt(args.u64("seed", 1)));
     let s = j.to_string();
     match args.get("out") {
         Some(p) => {
             std::fs::write(p, s).expect("write shard output");
         }
-        None => println!("{}", s),
+        None => {
+            use std::io::Write;
+            let line = format!("SHARDJSON {}\n", s);
+            let so = std::io::stdout();
+            let mut l = so.lock();
+            let _ = l.write_all(line.as_bytes());
+            let _ = l.flush();
+        }
     }
     println!(
         "SHARD engine={} evaluations={} nontrivial={} violations={} inconclusive={}",
@@ -86,9 +103,10 @@ fn write_out(args: &Args, shard: &report::Shard) {
 fn main() {
     let args = parse_args();
     hooks::install();
-    if !cfg!(miri) {
-        hooks::set_fut_park_sleep_ms(args.u64("fut-sleep-ms", 0));
-    }
+    // The unguarded crate sleeps 100 ms before reporting NotReady. Natively that only wastes
+    // time; under Miri's virtual clock the other threads would have to interpret 100 ms worth
+    // of busy polling. The sleep has no bearing on any property, so both run with 0.
+    hooks::set_fut_park_sleep_ms(args.u64("fut-sleep-ms", 0));
     // quiet panics: they are caught and classified by the harness
     if !args.flag("loud") {
         std::panic::set_hook(Box::new(|_| {}));
